@@ -1007,7 +1007,7 @@ func (*parser).failAt
 
 func formatFriendlyError
   props C19 C01
-  requires [C19] 0 <= pos.offset && pos.offset <= len(input)
+  requires [C19] 0 <= pos.offset && pos.offset <= len(input) && pos.col < 1<<40
   ensures result != nil
 
 func fmtErr
